@@ -416,7 +416,10 @@ def check(fx, rep, tier):
     rep.rule('R02.4', 'flush: one transport write of &buffer[..pos]; nothing written when pos == 0')
     rep.rule('R02.5', 'chain construction enqueues without flushing; send flushes once before the stream; send_* = enqueue then flush')
     rep.rule('R02.6', 'fill position is reset only after a successful transport write (also through helpers); buffer field never replaced or truncated; no other pos writers')
+    rep.rule('R02.8', 'no raw control character or NUL can appear inside a document: every string fragment reaches the writer through the escape scanner with the RFC 8259 table (E1, E2, E2b of C03)')
     rep.rule('R02.7', 'room for the terminator: (pos+len vs buffer.len()) test with growth on the full edge precedes the terminator store')
     for cfg in ['full'] + (['ws', 'nostd'] if tier == 'thorough' else []):
         check_crate(fx, rep, fx.crate('zlink_core', cfg), cfg)
+    import imports
+    imports.rules_of(fx, rep, 'C03', {'E1', 'E2', 'E2b'}, 'R02.8', 'an unescaped control character or NUL inside the document breaks the one-document-one-NUL framing')
     return META
